@@ -145,6 +145,19 @@ Theorem C07_no_lost_wakeup : forall cfg,
 Proof. exact no_lost_wakeup. Qed.
 Print Assumptions C07_no_lost_wakeup.
 
+(* sharper: the thread that did not drain the queue has FINISHED its program.  A thread is in g_awake from the moment
+   wait / waitFor(true) returns to it until it finds the queue empty, takes all of it (process / processIf /
+   processUntil) or goes to wait again; the invariant carries "whoever is in g_awake is running or finished", and in
+   a configuration where nobody can run nobody is running. *)
+Theorem C07_no_lost_wakeup_names_a_finished_thread : forall progs schedule n,
+  let cfg := run_sched n (mkCfg sh0 (start_threads progs) schedule false) in
+  (forall t, th_enabled cfg t = false) ->
+  (exists th, In th (ths cfg) /\ status th = TParked false) ->
+  ql (shs cfg) <> [] -> cnc (shs cfg) = 0%Z -> g_under (shs cfg) = false ->
+  exists u th, In u (g_awake (shs cfg)) /\ nth_error (ths cfg) u = Some th /\ status th = TFinished.
+Proof. intros progs schedule n cfg. apply no_lost_wakeup_names_a_finished_thread. apply wake_invariant_unconditional. Qed.
+Print Assumptions C07_no_lost_wakeup_names_a_finished_thread.
+
 Corollary C07_no_waiter_left_behind : forall cfg,
   KInv cfg -> (forall t, th_enabled cfg t = false) -> g_under (shs cfg) = false -> g_awake (shs cfg) = [] ->
   ql (shs cfg) <> [] -> cnc (shs cfg) = 0%Z ->
